@@ -415,14 +415,17 @@ class GroupBy:
         Count of observations for each group as numpy array containing the ikey or codes.
         Includes empty groups
         """
-        return self.count_ikey()
+        count = self.count_ikey()
+        # cached and handed out: an in-place edit by the caller must not corrupt later results
+        count.flags.writeable = False
+        return count
 
-    @cached_property
+    @property
     def key_count(self):
         """
         Count of observations for each group as a Series indexed by the unique labels
         """
-        return pd.Series(self.ikey_count, self.result_index)
+        return pd.Series(self.ikey_count.copy(), self.result_index)
 
     @staticmethod
     @nb.njit(nogil=True, cache=True)
@@ -498,11 +501,14 @@ class GroupBy:
             key_map = self._labels_argsort.argsort()
         else:
             key_map = None
-        return self._build_group_sorted_indexer_numba(
+        indexer = self._build_group_sorted_indexer_numba(
             group_key_list=_val_to_numpy(self.group_ikey, as_list=True),
             group_counts=group_counts,
             key_map=key_map,
         )
+        # cached, and .groups hands out views of it: keep callers from editing it in place
+        indexer.flags.writeable = False
+        return indexer
 
     @cached_property
     def groups(self):
